@@ -84,7 +84,7 @@ impl Property for C10 {
     }
 
     fn cases(tier: Tier) -> u64 {
-        tier.pick(48_000, 3_000_000)
+        tier.pick(150_000, 3_000_000)
     }
 
     fn strategy(_tier: Tier) -> BoxedStrategy<Case> {
